@@ -306,7 +306,7 @@ def run(ctx):
     # ======================================================================
     # A/B/C: white noise, Fourier, AAFT, refined AAFT — patched correspondence
     # ======================================================================
-    ncase = 120 if quick else 1200
+    ncase = 400 if quick else 3000
     for c in range(ncase):
         kind, data = gen_data(rng, nprng, quick)
         N, n = data.shape
@@ -385,7 +385,7 @@ def run(ctx):
     # ======================================================================
     # D: twins of Surrogates — kernels and method, fed draw stream
     # ======================================================================
-    ntw = 100 if quick else 1000
+    ntw = 300 if quick else 3000
     tw_cases = []
     for c in range(ntw):
         kind, data = gen_data(rng, nprng, quick, kinds=("int", "dyadic", "periodic", "periodic"))
@@ -444,7 +444,7 @@ def run(ctx):
     # ======================================================================
     # E: RecurrencePlot.twins / twin_surrogates
     # ======================================================================
-    nrp = 60 if quick else 600
+    nrp = 200 if quick else 2000
     for c in range(nrp):
         n = rng.choice([2, 3, 5, 8, 9, 12, 16, 21] if quick else [2, 3, 5, 8, 9, 12, 16, 21, 32, 40])
         kind = rng.choice(["int", "periodic", "dyadic"])
@@ -605,7 +605,7 @@ def check_spectrum(ctx, name, out, data, replay, bins="inner"):
 
 
 def oracle(ctx, Surrogates, RecurrencePlot, rng, nprng, quick):
-    nor = 150 if quick else 1500
+    nor = 500 if quick else 5000
     for c in range(nor):
         kind, data = gen_data(rng, nprng, quick)
         if c == 0:
@@ -680,7 +680,7 @@ def oracle(ctx, Surrogates, RecurrencePlot, rng, nprng, quick):
         ctx.case(("oracle", data.tobytes().hex(), seed, tuple(hist)), n >= 4)
 
     # ---- RecurrencePlot twins on the unpatched code ---------------------------
-    nrp = 60 if quick else 600
+    nrp = 200 if quick else 2000
     for c in range(nrp):
         n = rng.choice([2, 3, 5, 8, 13, 21, 30])
         kind = rng.choice(["periodic", "int", "float"])
